@@ -21,17 +21,21 @@ type GenOpts struct {
 	// element fail here?": such a grammar has no least-fixpoint meaning, so only checks that need
 	// none use it
 	Unstratified bool
-	RefTrims     bool  // trimming the reference semantics can follow: restricted operands (see genRefTrim)
-	Skeleton     bool  // recursion skeleton first (direct / hidden / indirect ring)
-	LRFree       bool  // repair left recursion away (C03)
-	Share        bool  // bias towards several references to one rule at one position (cache hits)
-	SkWeights    []int // when set, the skeleton kind is sampled from this list
-	Suppress     bool  // combinator.SuppressError wrappers
-	MemoLeaves   bool  // Memoize wrappers also around terminals and references ("any sub-parser")
-	Single       bool  // combinator.Single wrappers (C07 only: it changes tree shapes)
-	SeqOpts      bool  // .HandleResult(ReturnSingle()) and .Token(...) on sequence-like nodes
-	RuleNames    bool  // some rules are Memoize(body).Name(...): the name wrapper sits outside the memoization
-	NearMiss     bool  // prefer sentences of the grammar with one byte changed / inserted / deleted / appended
+	// SingleSafe: combinator.Single around operands that never return a result together with an
+	// error (sequences, repetitions, alternatives, terminals - not Optional, not a reference): there
+	// Single changes the shape of a tree but never which end offsets are reached
+	SingleSafe bool
+	RefTrims   bool  // trimming the reference semantics can follow: restricted operands (see genRefTrim)
+	Skeleton   bool  // recursion skeleton first (direct / hidden / indirect ring)
+	LRFree     bool  // repair left recursion away (C03)
+	Share      bool  // bias towards several references to one rule at one position (cache hits)
+	SkWeights  []int // when set, the skeleton kind is sampled from this list
+	Suppress   bool  // combinator.SuppressError wrappers
+	MemoLeaves bool  // Memoize wrappers also around terminals and references ("any sub-parser")
+	Single     bool  // combinator.Single wrappers (C07 only: it changes tree shapes)
+	SeqOpts    bool  // .HandleResult(ReturnSingle()) and .Token(...) on sequence-like nodes
+	RuleNames  bool  // some rules are Memoize(body).Name(...): the name wrapper sits outside the memoization
+	NearMiss   bool  // prefer sentences of the grammar with one byte changed / inserted / deleted / appended
 }
 
 // fixRepetitions makes every repetition operand consume input (C02's precondition): a
@@ -189,8 +193,24 @@ func GenGrammar(t *rapid.T, o GenOpts) *Grammar {
 			if o.Single {
 				kinds = append(kinds, KSingle, KSingle)
 			}
+			if o.SingleSafe {
+				kinds = append(kinds, kSingleSafe)
+			}
 		}
 		k := kinds[rapid.IntRange(0, len(kinds)-1).Draw(t, "kind")]
+		if k == kSingleSafe {
+			for try := 0; ; try++ {
+				op := gen(nt, depth+1, neg)
+				switch op.K {
+				case KSeqOf, KSeqTry, KSeqFirstOrAll, KMany, KMany1, KSepBy, KSepBy1, KAny, KChoice, KTerm:
+					op.Memo = false
+					return &Expr{K: KSingle, Kids: []*Expr{op}}
+				}
+				if try > 4 {
+					return &Expr{K: KSingle, Kids: []*Expr{{K: KSeqOf, Kids: []*Expr{term()}}}}
+				}
+			}
+		}
 		if k == kRefTrim {
 			return genRefTrim(t, func() *Expr { return gen(nt, depth+2, neg) }, term)
 		}
@@ -362,6 +382,7 @@ func GenGrammar(t *rapid.T, o GenOpts) *Grammar {
 // by a random derivation, or a one-byte mutation of such a sentence.
 // kRefTrim is a generator-only pseudo kind (never stored in an Expr).
 const kRefTrim Kind = 200
+const kSingleSafe Kind = 201
 
 // genRefTrim draws a trimmed expression whose meaning is the documented one without any doubt:
 // LeftTrim/RightTrim around a terminal (any mode), around Empty, or around a sequence / a set of
@@ -505,7 +526,9 @@ func shareTransform(t *rapid.T, g *Grammar, o GenOpts) {
 		return tm(o.Alphabet[rapid.IntRange(0, len(o.Alphabet)-1).Draw(t, "sch")])
 	}
 	small := func() *Expr {
-		switch rapid.IntRange(0, 9).Draw(t, "small") {
+		switch rapid.IntRange(0, 10).Draw(t, "small") {
+		case 10: // two alternatives, one of them a non-terminal with a single child
+			return ex(KAny, ex(KSeqOf, term()), ex(KSeqOf, term(), term()))
 		case 7: // succeeds on a prefix and records the failure of the next element further right
 			return ex(KSeqTry, term(), term(), term())
 		case 8:
@@ -543,6 +566,11 @@ func shareTransform(t *rapid.T, g *Grammar, o GenOpts) {
 		// the context there must not be lost for the other uses
 		if o.Suppress && rapid.IntRange(0, 2).Draw(t, "silenced") == 0 {
 			return ex(KSuppress, rf(s))
+		}
+		// and with Single in play one use in three goes through Single: what it does to the list it is
+		// handed must stay its own business
+		if o.Single && rapid.IntRange(0, 2).Draw(t, "singled") == 0 {
+			return ex(KSingle, rf(s))
 		}
 		return rf(s)
 	}
